@@ -22,6 +22,7 @@
 (*    the dictionary of the encoder, on ImplEncoder).  EqMode = "uri"      *)
 (*    (history/MC_Encoding_eq_uri.cfg): an equality that identifies terms  *)
 (*    by URI while the hash stays on the name -- refuted on the pairs.     *)
+(*    DecodeMode = "redump" (history/MC_Encoding_decode_redump.cfg).       *)
 (*    HashMode = "note_iso" (history/MC_Encoding_hash_note_iso.cfg), KeyMode*)
 (*    = "declared_fields" (history/MC_Encoding_key_declared_fields.cfg).   *)
 (*    EqMode = "nan_equal" (history/MC_Encoding_eq_nan.cfg): NaN features  *)
@@ -32,6 +33,8 @@
 (***************************************************************************)
 EXTENDS Encoding, TLC, Json
 CONSTANTS MaxVocab, MaxTags, NTags, SmallTags, KeyMode, HashMode,
+          DecodeMode,  \* "stored" (the code: decode hands out the stored tag) | "redump" (control: a copy rebuilt from a dump
+                       \*  without defaults, validated by field name)
           NearPairs,   \* derived objects meet: TRUE = partners differing in <= 1 field, FALSE = model-equal partners only
           EqMode,      \* "structural" (the code) | "uri" (control: terms with the same URI are equal whatever their names)
           ProvTags,    \* tag lists up to this length meet vocabularies of <= 2 tags written differently (vprov # qprov ...)
@@ -79,6 +82,8 @@ Init == /\ \/ \E v \in Vocabs, ts \in TagLists : (Len(v) < MaxVocab \/ Len(ts) <
            \/ \E v \in {w \in SeqsUpTo(WsTags, 2) : Injective(w)}, ts \in SeqsUpTo(WsTags, 2) : c = EncCase(v, ts)
            \* tags on terms that differ only in an extra attribute (absent / draft / final) are different tags
            \/ \E v \in {w \in SeqsUpTo(XTags, 2) : Injective(w)}, ts \in SeqsUpTo(XTags, 2) : c = EncCase(v, ts)
+           \* tags on terms with every optional field set, the aliased ones (type, range) away from their defaults
+           \/ \E v \in {w \in SeqsUpTo(FullTags, 2) : Injective(w)}, ts \in SeqsUpTo(FullTags, 1) : c = EncCase(v, ts)
            \/ \E v \in Vocabs, ts \in TagLists : \E vp \in Written, qp \in Written :
                  Len(v) <= 2 /\ Len(ts) <= ProvTags /\ <<vp, qp>> # <<"fresh", "fresh">> /\ SameContent(vp, qp)
                  /\ c = EncCaseP(v, ts, vp, qp)
@@ -124,6 +129,10 @@ Export == pc = "done" => PrintT(<<"CASE", ToJson(c)>>)
 
 IsEnc == c.kind = "enc"
 (* Impl => Req: what the loops computed is what Req demands *)
+\* what decode(k - 1) hands out, as <<term, value>> (term 0 = none of the universe)
+DecodeImpl(k) == LET u == c.vocab[k] IN
+                 IF DecodeMode = "redump" THEN <<Redumped[UTag[u][1]], UTag[u][2]>> ELSE UTag[u]
+ImplDecode   == (IsEnc /\ pc # "build") => \A k \in DOMAIN c.vocab : DecodeImpl(k) = UTag[c.vocab[k]]
 ImplEncoder  == (IsEnc /\ pc # "build") => \A u \in 1..NU : Lookup(u) = Encode(c.vocab, u)
 ImplClassify == (IsEnc /\ pc \in {"multi", "pred", "done"}) => cls = Classify(c.vocab, c.tags)
 ImplMulti    == (IsEnc /\ pc \in {"pred", "done"}) => multi = Multilabel(c.vocab, c.tags)
